@@ -9,7 +9,9 @@ export GOFLAGS=-mod=mod GOPROXY=off GOSUMDB=off GOTOOLCHAIN=local
 gaps=0; ok=0; skipped=0
 while read -r file props desc; do
   [ -z "$file" ] && continue
-  for p in ${props//,/ }; do
+  for pt in ${props//,/ }; do
+    # an entry C<nn>:thorough is checked in the thorough tier (roots too slow for the quick limits)
+    p=${pt%%:*}; tier=quick; [ "$pt" != "$p" ] && tier=${pt#*:}
     [ "$want" != all ] && [ "$want" != "$p" ] && continue
     wt=$(mktemp -d /tmp/mqvc-selftest.XXXXXX); rmdir "$wt"
     git -C /repo worktree add -q --detach "$wt" HEAD 2>/dev/null || { echo "SELFTEST-SKIP $file (cannot create scratch worktree)"; skipped=$((skipped+1)); continue; }
@@ -17,7 +19,7 @@ while read -r file props desc; do
       echo "SELFTEST-SKIP $file vs $p (does not apply to the current HEAD)"; skipped=$((skipped+1))
     else
       ev=$(mktemp -d /tmp/mqvc-selftest-ev.XXXXXX)
-      out=$(MQVC_REPO="$wt" MQVC_EVIDENCE_DIR="$ev" MQVC_WORK="$ev" timeout 1200 ./bin/mqvc check $p quick 2>&1)
+      out=$(MQVC_REPO="$wt" MQVC_EVIDENCE_DIR="$ev" MQVC_WORK="$ev" timeout 2400 ./bin/mqvc check $p $tier 2>&1)
       if echo "$out" | grep -q '^VIOLATION'; then
         echo "SELFTEST-OK   $file breaks $p: $(echo "$out" | grep -c '^VIOLATION') obligation(s) fail ($desc)"; ok=$((ok+1))
       else
